@@ -770,9 +770,9 @@ impl UntypedStmt {
 
                                     let mut index =
                                         index.type_check(top_level_defs, env, fns, defs)?;
-                                    check_or_constrain_unsigned(
+                                    check_type(
                                         &mut index,
-                                        UnsignedNumType::Usize,
+                                        &Type::Unsigned(UnsignedNumType::Usize),
                                     )?;
                                     Accessor::ArrayAccess { array_ty, index }
                                 }
@@ -1044,7 +1044,7 @@ impl UntypedExpr {
                 let arr = arr.type_check(top_level_defs, env, fns, defs)?;
                 let mut index = index.type_check(top_level_defs, env, fns, defs)?;
                 let elem_ty = expect_array_type(&arr.ty, arr.meta)?;
-                check_or_constrain_unsigned(&mut index, UnsignedNumType::Usize)?;
+                check_type(&mut index, &Type::Unsigned(UnsignedNumType::Usize))?;
                 (
                     ExprEnum::ArrayAccess(Box::new(arr), Box::new(index)),
                     elem_ty,
@@ -1147,7 +1147,8 @@ impl UntypedExpr {
                     let x = x.type_check(top_level_defs, env, fns, defs)?;
                     let mut y = y.type_check(top_level_defs, env, fns, defs)?;
                     expect_num_type(&x.ty, x.meta)?;
-                    check_or_constrain_unsigned(&mut y, UnsignedNumType::U8)?;
+                    // (check_type also types number literals nested inside of y)
+                    check_type(&mut y, &Type::Unsigned(UnsignedNumType::U8))?;
                     (ExprEnum::Op(*op, Box::new(x.clone()), Box::new(y)), x.ty)
                 }
             },
